@@ -2,6 +2,7 @@ package props
 
 import (
 	"fmt"
+	"go/token"
 	"go/types"
 	"sort"
 	"strings"
@@ -47,6 +48,7 @@ func runC12(c *an.Ctx) {
 	}
 	// composite literals of transformationKey / transformationValue
 	lits := map[*ssa.Alloc]map[string]ssa.Value{}
+	litStores := map[*ssa.Alloc][]*ssa.Store{}
 	an.Instrs(fn, func(in ssa.Instruction) {
 		st, ok := in.(*ssa.Store)
 		if !ok {
@@ -68,20 +70,63 @@ func runC12(c *an.Ctx) {
 			lits[al] = map[string]ssa.Value{}
 		}
 		lits[al][an.FieldVar(fa).Name()] = st.Val
+		litStores[al] = append(litStores[al], st)
 	})
+	// fieldsAt: the value each field of the local struct holds when `use` executes — the closest store that
+	// dominates the use (a key variable may be filled once and have one field updated before every access)
+	var fieldsAt func(al *ssa.Alloc, use ssa.Instruction, d int) map[string]ssa.Value
+	fieldsAt = func(al *ssa.Alloc, use ssa.Instruction, d int) map[string]ssa.Value {
+		type event struct {
+			at     ssa.Instruction
+			fields map[string]ssa.Value
+		}
+		var evs []event
+		for _, st := range litStores[al] {
+			evs = append(evs, event{st, map[string]ssa.Value{an.FieldVar(st.Addr.(*ssa.FieldAddr)).Name(): st.Val}})
+		}
+		// whole-struct assignment from another local literal: key := transformationKey{...} is compiled as a
+		// temporary literal copied into the variable
+		if d < 3 {
+			for _, ref := range *al.Referrers() {
+				st, ok := ref.(*ssa.Store)
+				if !ok || st.Addr != ssa.Value(al) {
+					continue
+				}
+				if ld, ok := st.Val.(*ssa.UnOp); ok && ld.Op == token.MUL {
+					if src, ok := ld.X.(*ssa.Alloc); ok && litStores[src] != nil {
+						evs = append(evs, event{st, fieldsAt(src, ld, d+1)})
+					}
+				}
+			}
+		}
+		out := map[string]ssa.Value{}
+		best := map[string]ssa.Instruction{}
+		for _, ev := range evs {
+			if !an.InstrDominates(ev.at, use) {
+				continue
+			}
+			for name, v := range ev.fields {
+				if b := best[name]; b == nil || an.InstrDominates(b, ev.at) {
+					best[name] = ev.at
+					out[name] = v
+				}
+			}
+		}
+		return out
+	}
 	var keys []keyLit
 	an.Instrs(fn, func(in ssa.Instruction) {
 		switch x := in.(type) {
 		case *ssa.Lookup:
 			if ld, ok := x.Index.(*ssa.UnOp); ok {
 				if al, ok := ld.X.(*ssa.Alloc); ok && lits[al] != nil {
-					keys = append(keys, keyLit{alloc: al, fields: lits[al], lookup: true, use: in})
+					keys = append(keys, keyLit{alloc: al, fields: fieldsAt(al, in, 0), lookup: true, use: in})
 				}
 			}
 		case *ssa.MapUpdate:
 			if ld, ok := x.Key.(*ssa.UnOp); ok {
 				if al, ok := ld.X.(*ssa.Alloc); ok && lits[al] != nil {
-					k := keyLit{alloc: al, fields: lits[al], store: true, use: in}
+					k := keyLit{alloc: al, fields: fieldsAt(al, in, 0), store: true, use: in}
 					if vl, ok := x.Value.(*ssa.UnOp); ok {
 						if val, ok := vl.X.(*ssa.Alloc); ok {
 							k.val = val
@@ -211,29 +256,78 @@ func runC12(c *an.Ctx) {
 	sort.Strings(sh)
 	c.Check(len(sh) == 1, "R2", "transformArg: lookup and store keys are built from the same operands", fn.Pos(), sh[0],
 		"lookup and store use different key operands: "+strings.Join(sh, "  VS  ")+" — results are stored where no (or the wrong) lookup finds them")
-	// resume after a hit
-	okResume := false
-	an.Instrs(fn, func(in ssa.Instruction) {
-		if phi, ok := in.(*ssa.Phi); ok && phi.Comment == "startIdx" {
-			e := render(phi)
-			if strings.Contains(e, "+ 1)") && strings.Contains(e, "0") {
-				okResume = true
+	// resume after a hit / start from the input: both are read off the transformation loop itself (the loop
+	// containing the call of r.transformations[idx].Function(run)), not off variable names: idx and run are
+	// header phis whose entry values are followed back through the merges of the cache search.
+	entryLeaves := func(phi *ssa.Phi) []ssa.Value {
+		var out []ssa.Value
+		seen := map[ssa.Value]bool{}
+		lp := an.InnermostLoop(phi.Block())
+		var walk func(v ssa.Value, d int)
+		walk = func(v ssa.Value, d int) {
+			if seen[v] || d > 8 {
+				return
+			}
+			seen[v] = true
+			if p2, ok := v.(*ssa.Phi); ok {
+				for i, e := range p2.Edges {
+					if p2 == phi && lp != nil && lp.Blocks[p2.Block().Preds[i]] {
+						continue // back edge of the transformation loop
+					}
+					walk(e, d+1)
+				}
+				return
+			}
+			out = append(out, v)
+		}
+		walk(phi, 0)
+		return out
+	}
+	okResume, initOK := false, false
+	run := runningValuePhi(fn)
+	if run != nil {
+		for _, v := range entryLeaves(run) {
+			if render(v) == inputExpr {
+				initOK = true
 			}
 		}
-	})
-	c.Check(okResume, "R3", "transformArg: a hit at index i resumes at i+1", fn.Pos(), "startIdx = i + 1 after a hit, 0 otherwise", "after a cache hit the remaining transformations do not start at the index following the hit")
-	// the initial running value is the input
-	initOK := false
-	an.Instrs(fn, func(in ssa.Instruction) {
-		if phi, ok := in.(*ssa.Phi); ok && phi.Comment == "value" {
-			for _, e := range phi.Edges {
-				if render(e) == inputExpr {
-					initOK = true
+		// the loop index: the index operand of the transformation call's callee expression
+		an.Instrs(fn, func(in ssa.Instruction) {
+			call, ok := isTransformationCall(in)
+			if !ok {
+				return
+			}
+			if lc := an.InnermostLoop(call.Block()); lc == nil || lc.Header != run.Block() {
+				return
+			}
+			var idx ssa.Value
+			for root := range an.Deps(call.Call.Value) {
+				if ia, ok := root.(*ssa.IndexAddr); ok {
+					idx = ia.Index
 				}
 			}
-		}
-	})
-	c.Check(initOK, "R3", "transformArg: without a hit the chain starts from the input", fn.Pos(), "value = arg.Value()", "the running value does not start from arg.Value()")
+			phi, ok := idx.(*ssa.Phi)
+			if !ok {
+				return
+			}
+			zero, succ := false, false
+			for _, v := range entryLeaves(phi) {
+				if k, ok := an.ConstInt(v); ok && k == 0 {
+					zero = true
+				}
+				if b, ok := v.(*ssa.BinOp); ok && b.Op == token.ADD {
+					if k, ok := an.ConstInt(b.Y); ok && k == 1 {
+						succ = true
+					}
+				}
+			}
+			if zero && succ {
+				okResume = true
+			}
+		})
+	}
+	c.Check(okResume, "R3", "transformArg: a hit at index i resumes at i+1", fn.Pos(), "the transformation loop starts at i + 1 after a hit, at 0 otherwise", "after a cache hit the remaining transformations do not start at the index following the hit")
+	c.Check(initOK, "R3", "transformArg: without a hit the chain starts from the input", fn.Pos(), "the running value enters the transformation loop as arg.Value() when nothing was cached", "the running value does not start from arg.Value()")
 
 	// ---- R4 interning.
 	c12Interning(c)
